@@ -89,6 +89,10 @@ def _signatures(session, result):
             moved = True
         elif op[0] in ('write', 'delete'):
             changed.add(op[1])
+        elif op[0] == 'mc':
+            for rec in o[1]:
+                sigs.append(('mc-' + str(op[1]), (rec['out'][0], None), None, prev, moved, False))
+            prev, moved = 'mc', False
         elif op[0] in ('get', 'getdict', 'getmix', 'cli', 'hip'):
             p = op[2] if op[0] != 'cli' else op[1]
             cache = caching[op[1]] if op[0] not in ('cli', 'hip') and op[1] < len(caching) else None
@@ -185,7 +189,8 @@ def build_pool(ctx, n, with_mixes=True):
     extra = {'src_content': len(contents) - 1, 'hip_ids': list(range(len(contents), len(contents) + len(S.HIP_TEXTS)))}
     geo = len(contents)
     contents += S.HIP_TEXTS
-    refs.ensure(range(geo))
+    extra['mcs'] = S.mc_combos(contents, ok_ids[:2], extra['hip_ids'][:1])
+    refs.ensure([c for c in range(len(contents)) if c < geo or any(m[3] == c and m[0] == 'g' for m in extra['mcs'])])
     ctx.count('pool', evaluations=len(contents), contents_ok=len(ok_ids), contents_failing=len(bad_ids), base_plus_params=len(mixes),
               failing_kinds={refs.of(c)[2][:60]: 1 for c in bad_ids})
     return contents, refs, ok_ids, bad_ids, mixes, extra
